@@ -1,19 +1,20 @@
 import Verif.Impl.Alu
 import Verif.Impl.HandlerNames
-import Verif.Generated.OpTable
-import Verif.Generated.Cycles
+import Verif.Impl.Consts
 /-
   Code-shaped model of the monadic part of package cpu: addressing helpers (cpu/adressing.go),
   the handler shapes of cpu/instructions_*.go, `executeInstruction`, `push`/`pop`.
   Same order of `Mem.Load` / `Mem.Store` calls and the same placement of `c.PC++` as the Go code.
 
   Go has one function per opcode; most of them are instances of a few shapes.  The model keeps
-  one definition per *shape* (`readOp`, `storeOp`, `modOp`, ...) and a table `handler : H → …`
-  that instantiates it per Go function.  The cycle literals come from `Generated.Cycles`.
+  one definition per *shape* (`readOp`, `storeOp`, `modOp`, ...) and a table `handlerS : H → …`
+  that instantiates it per Go function.  Handlers return their cycle count symbolically in the
+  literals of the Go source (`StepOutS`, a function of `CycleConsts`); `handler k` evaluates it for
+  a record `k` of literals — `Generated.consts` for the code as it is now.  Neither this file nor
+  the proofs about it import the regenerated facts.
 -/
 namespace Verif.Impl
 open Verif
-open Verif.Generated
 
 def incPC : M Unit := modify fun r => { r with pc := r.pc + 1 }
 def setPC (a : Addr) : M Unit := modify fun r => { r with pc := a }
@@ -177,12 +178,12 @@ def ReadOp.run (model : CpuModel) : ReadOp → Byte → M Nat
 
 /-- `xxxYyy()` handlers that load one operand: address, load, operate, `c.PC++`.
     `usePage`: whether the handler adds the helper's page-cross cycle to its result. -/
-def readOp (model : CpuModel) (am : AM) (base : Nat) (op : ReadOp) : M StepOut := do
+def readOp (model : CpuModel) (am : AM) (base : CycleConsts → Nat) (op : ReadOp) : M StepOutS := do
   let (addr, moreCycles) ← getAddr am
   let operand ← ld addr
   let additionalCycles ← op.run model operand
   incPC
-  return ⟨base + additionalCycles + moreCycles, false⟩
+  return ⟨fun k => base k + additionalCycles + moreCycles, false⟩
 
 inductive Src where
   | a | x | y | zero
@@ -192,20 +193,20 @@ def Src.get (r : Regs) : Src → Byte
   | .a => r.a | .x => r.x | .y => r.y | .zero => 0
 
 /-- STA/STX/STY/STZ: the page-cross cycle of the helper is discarded (`addr, _ :=`) -/
-def storeOp (am : AM) (base : Nat) (src : Src) : M StepOut := do
+def storeOp (am : AM) (base : CycleConsts → Nat) (src : Src) : M StepOutS := do
   let (addr, _) ← getAddr am
   st addr (src.get (← get))
   incPC
-  return ⟨base, false⟩
+  return ⟨fun k => base k, false⟩
 
-def modImplied (base : Nat) (m : Modifier) : M StepOut := do
+def modImplied (base : CycleConsts → Nat) (m : Modifier) : M StepOutS := do
   modify fun r =>
     let (res, p) := m.apply r.p r.a
     { r with a := res, p := nzFlags p res }
-  return ⟨base, false⟩
+  return ⟨fun k => base k, false⟩
 
 /-- `modZeroPage` .. `modAbsoluteX65C02`; `usePage` only for the 65C02 abs,X variant -/
-def modOp (am : AM) (base : Nat) (usePage : Bool) (m : Modifier) : M StepOut := do
+def modOp (am : AM) (base : CycleConsts → Nat) (usePage : Bool) (m : Modifier) : M StepOutS := do
   let (operAddr, extra) ← getAddr am
   let oper ← ld operAddr
   let r ← get
@@ -214,10 +215,10 @@ def modOp (am : AM) (base : Nat) (usePage : Bool) (m : Modifier) : M StepOut := 
   st operAddr res
   modify fun r => { r with p := nzFlags r.p res }
   incPC
-  return ⟨base + (if usePage then extra else 0), false⟩
+  return ⟨fun k => base k + (if usePage then extra else 0), false⟩
 
 /-- TRB / TSB -/
-def testBitsOp (am : AM) (base : Nat) (set? : Bool) : M StepOut := do
+def testBitsOp (am : AM) (base : CycleConsts → Nat) (set? : Bool) : M StepOutS := do
   let (addr, _) ← getAddr am
   let oper ← ld addr
   let r ← get
@@ -225,44 +226,44 @@ def testBitsOp (am : AM) (base : Nat) (set? : Bool) : M StepOut := do
   set { r with p := p }
   st addr res
   incPC
-  return ⟨base, false⟩
+  return ⟨fun k => base k, false⟩
 
-def rmbBase (base : Nat) (bit : Byte) : M StepOut := do
+def rmbBase (base : CycleConsts → Nat) (bit : Byte) : M StepOutS := do
   let addr ← getAddrZeroPage
   let oper ← ld addr
   st addr (oper &&& (bit ^^^ 0xFF))
   incPC
-  return ⟨base, false⟩
+  return ⟨fun k => base k, false⟩
 
-def smbBase (base : Nat) (bit : Byte) : M StepOut := do
+def smbBase (base : CycleConsts → Nat) (bit : Byte) : M StepOutS := do
   let addr ← getAddrZeroPage
   let oper ← ld addr
   st addr (oper ||| bit)
   incPC
-  return ⟨base, false⟩
+  return ⟨fun k => base k, false⟩
 
 -- -------- branches --------
 
-def branchOnFlagClear (flag : Byte) : M StepOut := do
+def branchOnFlagClear (flag : Byte) : M StepOutS := do
   let r ← get
   cond ((r.p &&& flag) != 0)
-    (do incPC; return ⟨ret_branchOnFlagClear_0, false⟩)
+    (do incPC; return ⟨fun k => k.branchOnFlagClear_0, false⟩)
     (do let (branchAddress, additionalCycle) ← getAddrRelative
         setPC branchAddress
-        return ⟨ret_branchOnFlagClear_1 + additionalCycle, false⟩)
+        return ⟨fun k => k.branchOnFlagClear_1 + additionalCycle, false⟩)
 
-def branchOnFlagSet (flag : Byte) : M StepOut := do
+def branchOnFlagSet (flag : Byte) : M StepOutS := do
   let r ← get
   cond ((r.p &&& flag) == 0)
-    (do incPC; return ⟨ret_branchOnFlagSet_0, false⟩)
+    (do incPC; return ⟨fun k => k.branchOnFlagSet_0, false⟩)
     (do let (branchAddress, additionalCycle) ← getAddrRelative
         setPC branchAddress
-        return ⟨ret_branchOnFlagSet_1 + additionalCycle, false⟩)
+        return ⟨fun k => k.branchOnFlagSet_1 + additionalCycle, false⟩)
 
-def bra : M StepOut := do
+def bra : M StepOutS := do
   let (branchAddress, additionalCycle) ← getAddrRelative
   setPC branchAddress
-  return ⟨ret_bra_0 + additionalCycle, false⟩
+  return ⟨fun k => k.bra_0 + additionalCycle, false⟩
 
 def getAddressesBitBranchRelative : M (Addr × Addr × Nat) := do
   let zpAddr ← getAddrZeroPage
@@ -270,249 +271,249 @@ def getAddressesBitBranchRelative : M (Addr × Addr × Nat) := do
   let (branchAddress, additionalCycle) ← getAddrRelative
   return (zpAddr, branchAddress, additionalCycle)
 
-def branchOnBitClear (bit : Byte) : M StepOut := do
+def branchOnBitClear (bit : Byte) : M StepOutS := do
   let (zpAddr, branchAddr, additionalCycle) ← getAddressesBitBranchRelative
   let v ← ld zpAddr
   cond ((v &&& bit) != 0)
-    (do incPC; return ⟨ret_branchOnBitClear_0, false⟩)
-    (do setPC branchAddr; return ⟨ret_branchOnBitClear_1 + additionalCycle, false⟩)
+    (do incPC; return ⟨fun k => k.branchOnBitClear_0, false⟩)
+    (do setPC branchAddr; return ⟨fun k => k.branchOnBitClear_1 + additionalCycle, false⟩)
 
-def branchOnBitSet (bit : Byte) : M StepOut := do
+def branchOnBitSet (bit : Byte) : M StepOutS := do
   let (zpAddr, branchAddr, additionalCycle) ← getAddressesBitBranchRelative
   let v ← ld zpAddr
   cond ((v &&& bit) == 0)
-    (do incPC; return ⟨ret_branchOnBitSet_0, false⟩)
-    (do setPC branchAddr; return ⟨ret_branchOnBitSet_1 + additionalCycle, false⟩)
+    (do incPC; return ⟨fun k => k.branchOnBitSet_0, false⟩)
+    (do setPC branchAddr; return ⟨fun k => k.branchOnBitSet_1 + additionalCycle, false⟩)
 
 -- -------- jumps --------
 
-def jsr : M StepOut := do
+def jsr : M StepOutS := do
   let addr ← getAddrAbsolute
   let pc := (← get).pc
   push (u8 ((pc &&& 0xFF00) >>> 8))
   let pc := (← get).pc
   push (u8 (pc &&& 0x00FF))
   setPC addr
-  return ⟨ret_jsr_0, false⟩
+  return ⟨fun k => k.jsr_0, false⟩
 
-def rts : M StepOut := do
+def rts : M StepOutS := do
   let loByte ← pop
   let hiByte ← pop
   setPC (mkAddr hiByte loByte + 1)
-  return ⟨ret_rts_0, false⟩
+  return ⟨fun k => k.rts_0, false⟩
 
-def jmp : M StepOut := do
+def jmp : M StepOutS := do
   let addr ← getAddrAbsolute
   setPC addr
-  return ⟨ret_jmp_0, false⟩
+  return ⟨fun k => k.jmp_0, false⟩
 
-def jmpIndirect6502 : M StepOut := do
+def jmpIndirect6502 : M StepOutS := do
   let addr ← getAddrIndirectJmp6502
   setPC addr
-  return ⟨ret_jmpIndirect6502_0, false⟩
+  return ⟨fun k => k.jmpIndirect6502_0, false⟩
 
-def jmpIndirect65C02 : M StepOut := do
+def jmpIndirect65C02 : M StepOutS := do
   let addr ← getAddrIndirect
   setPC addr
-  return ⟨ret_jmpIndirect65C02_0, false⟩
+  return ⟨fun k => k.jmpIndirect65C02_0, false⟩
 
-def jmpIndexXIndirect : M StepOut := do
+def jmpIndexXIndirect : M StepOutS := do
   let addr ← getAddrIdxIndirect65C02
   setPC addr
-  return ⟨ret_jmpIndexXIndirect_0, false⟩
+  return ⟨fun k => k.jmpIndexXIndirect_0, false⟩
 
 -- -------- stack, flags, transfers, register inc/dec --------
 
-def pushOp (base : Nat) (f : Regs → Byte) : M StepOut := do
+def pushOp (base : CycleConsts → Nat) (f : Regs → Byte) : M StepOutS := do
   push (f (← get))
-  return ⟨base, false⟩
+  return ⟨fun k => base k, false⟩
 
 /-- PLA / PLX / PLY (`nzFlags`) -/
-def pullOp (base : Nat) (setReg : Byte → Regs → Regs) : M StepOut := do
+def pullOp (base : CycleConsts → Nat) (setReg : Byte → Regs → Regs) : M StepOutS := do
   let v ← pop
   modify fun r => let r := setReg v r; { r with p := nzFlags r.p v }
-  return ⟨base, false⟩
+  return ⟨fun k => base k, false⟩
 
-def plp : M StepOut := do
+def plp : M StepOutS := do
   let v ← pop
   setP v
-  return ⟨ret_plp_0, false⟩
+  return ⟨fun k => k.plp_0, false⟩
 
-def regOp (base : Nat) (f : Regs → Regs) : M StepOut := do
+def regOp (base : CycleConsts → Nat) (f : Regs → Regs) : M StepOutS := do
   modify f
-  return ⟨base, false⟩
+  return ⟨fun k => base k, false⟩
 
-def handler (model : CpuModel) : H → M StepOut
+def handlerS (model : CpuModel) : H → M StepOutS
   -- function literals
-  | .lit7true => pure ⟨7, true⟩
-  | .lit2false => pure ⟨2, false⟩
+  | .lit7true => pure ⟨fun _ => 7, true⟩
+  | .lit2false => pure ⟨fun _ => 2, false⟩
   -- LDA
-  | .ldaImmediate => readOp model .imm ret_ldaImmediate_0 .lda
-  | .ldaZeroPage => readOp model .zp ret_ldaZeroPage_0 .lda
-  | .ldaZeroPageIdxX => readOp model .zpx ret_ldaZeroPageIdxX_0 .lda
-  | .ldaAbsolute => readOp model .abs ret_ldaAbsolute_0 .lda
-  | .ldaAbsoluteX => readOp model .absx ret_ldaAbsoluteX_0 .lda
-  | .ldaAbsoluteY => readOp model .absy ret_ldaAbsoluteY_0 .lda
-  | .ldaIdxIndirectX => readOp model .indx ret_ldaIdxIndirectX_0 .lda
-  | .ldaIndIdxY => readOp model .indy ret_ldaIndIdxY_0 .lda
-  | .ldaIndirect => readOp model .zpind ret_ldaIndirect_0 .lda
+  | .ldaImmediate => readOp model .imm (·.ldaImmediate_0) .lda
+  | .ldaZeroPage => readOp model .zp (·.ldaZeroPage_0) .lda
+  | .ldaZeroPageIdxX => readOp model .zpx (·.ldaZeroPageIdxX_0) .lda
+  | .ldaAbsolute => readOp model .abs (·.ldaAbsolute_0) .lda
+  | .ldaAbsoluteX => readOp model .absx (·.ldaAbsoluteX_0) .lda
+  | .ldaAbsoluteY => readOp model .absy (·.ldaAbsoluteY_0) .lda
+  | .ldaIdxIndirectX => readOp model .indx (·.ldaIdxIndirectX_0) .lda
+  | .ldaIndIdxY => readOp model .indy (·.ldaIndIdxY_0) .lda
+  | .ldaIndirect => readOp model .zpind (·.ldaIndirect_0) .lda
   -- LDX
-  | .ldxImmediate => readOp model .imm ret_ldxImmediate_0 .ldx
-  | .ldxZeroPage => readOp model .zp ret_ldxZeroPage_0 .ldx
-  | .ldxZeroPageIdxY => readOp model .zpy ret_ldxZeroPageIdxY_0 .ldx
-  | .ldxAbsolute => readOp model .abs ret_ldxAbsolute_0 .ldx
-  | .ldxAbsoluteY => readOp model .absy ret_ldxAbsoluteY_0 .ldx
+  | .ldxImmediate => readOp model .imm (·.ldxImmediate_0) .ldx
+  | .ldxZeroPage => readOp model .zp (·.ldxZeroPage_0) .ldx
+  | .ldxZeroPageIdxY => readOp model .zpy (·.ldxZeroPageIdxY_0) .ldx
+  | .ldxAbsolute => readOp model .abs (·.ldxAbsolute_0) .ldx
+  | .ldxAbsoluteY => readOp model .absy (·.ldxAbsoluteY_0) .ldx
   -- LDY
-  | .ldyImmediate => readOp model .imm ret_ldyImmediate_0 .ldy
-  | .ldyZeroPage => readOp model .zp ret_ldyZeroPage_0 .ldy
-  | .ldyZeroPageIdxX => readOp model .zpx ret_ldyZeroPageIdxX_0 .ldy
-  | .ldyAbsolute => readOp model .abs ret_ldyAbsolute_0 .ldy
-  | .ldyAbsoluteX => readOp model .absx ret_ldyAbsoluteX_0 .ldy
+  | .ldyImmediate => readOp model .imm (·.ldyImmediate_0) .ldy
+  | .ldyZeroPage => readOp model .zp (·.ldyZeroPage_0) .ldy
+  | .ldyZeroPageIdxX => readOp model .zpx (·.ldyZeroPageIdxX_0) .ldy
+  | .ldyAbsolute => readOp model .abs (·.ldyAbsolute_0) .ldy
+  | .ldyAbsoluteX => readOp model .absx (·.ldyAbsoluteX_0) .ldy
   -- CMP / CPX / CPY
-  | .cmpImmediate => readOp model .imm ret_cmpImmediate_0 .cmp
-  | .cmpZeroPage => readOp model .zp ret_cmpZeroPage_0 .cmp
-  | .cmpZeroPageX => readOp model .zpx ret_cmpZeroPageX_0 .cmp
-  | .cmpAbsolute => readOp model .abs ret_cmpAbsolute_0 .cmp
-  | .cmpAbsoluteX => readOp model .absx ret_cmpAbsoluteX_0 .cmp
-  | .cmpAbsoluteY => readOp model .absy ret_cmpAbsoluteY_0 .cmp
-  | .cmpIdxXIndirect => readOp model .indx ret_cmpIdxXIndirect_0 .cmp
-  | .cmpIndIdxY => readOp model .indy ret_cmpIndIdxY_0 .cmp
-  | .cmpIndirect => readOp model .zpind ret_cmpIndirect_0 .cmp
-  | .cpxImmediate => readOp model .imm ret_cpxImmediate_0 .cpx
-  | .cpxZeroPage => readOp model .zp ret_cpxZeroPage_0 .cpx
-  | .cpxAbsolute => readOp model .abs ret_cpxAbsolute_0 .cpx
-  | .cpyImmediate => readOp model .imm ret_cpyImmediate_0 .cpy
-  | .cpyZeroPage => readOp model .zp ret_cpyZeroPage_0 .cpy
-  | .cpyAbsolute => readOp model .abs ret_cpyAbsolute_0 .cpy
+  | .cmpImmediate => readOp model .imm (·.cmpImmediate_0) .cmp
+  | .cmpZeroPage => readOp model .zp (·.cmpZeroPage_0) .cmp
+  | .cmpZeroPageX => readOp model .zpx (·.cmpZeroPageX_0) .cmp
+  | .cmpAbsolute => readOp model .abs (·.cmpAbsolute_0) .cmp
+  | .cmpAbsoluteX => readOp model .absx (·.cmpAbsoluteX_0) .cmp
+  | .cmpAbsoluteY => readOp model .absy (·.cmpAbsoluteY_0) .cmp
+  | .cmpIdxXIndirect => readOp model .indx (·.cmpIdxXIndirect_0) .cmp
+  | .cmpIndIdxY => readOp model .indy (·.cmpIndIdxY_0) .cmp
+  | .cmpIndirect => readOp model .zpind (·.cmpIndirect_0) .cmp
+  | .cpxImmediate => readOp model .imm (·.cpxImmediate_0) .cpx
+  | .cpxZeroPage => readOp model .zp (·.cpxZeroPage_0) .cpx
+  | .cpxAbsolute => readOp model .abs (·.cpxAbsolute_0) .cpx
+  | .cpyImmediate => readOp model .imm (·.cpyImmediate_0) .cpy
+  | .cpyZeroPage => readOp model .zp (·.cpyZeroPage_0) .cpy
+  | .cpyAbsolute => readOp model .abs (·.cpyAbsolute_0) .cpy
   -- ADC
-  | .addImmediate => readOp model .imm ret_addImmediate_0 .add
-  | .addZeroPage => readOp model .zp ret_addZeroPage_0 .add
-  | .addZeroPageX => readOp model .zpx ret_addZeroPageX_0 .add
-  | .addAbsolute => readOp model .abs ret_addAbsolute_0 .add
-  | .addAbsoluteX => readOp model .absx ret_addAbsoluteX_0 .add
-  | .addAbsoluteY => readOp model .absy ret_addAbsoluteY_0 .add
-  | .addIdxXIndirect => readOp model .indx ret_addIdxXIndirect_0 .add
-  | .addIndirectIdxY => readOp model .indy ret_addIndirectIdxY_0 .add
-  | .addIndirect => readOp model .zpind ret_addIndirect_0 .add
+  | .addImmediate => readOp model .imm (·.addImmediate_0) .add
+  | .addZeroPage => readOp model .zp (·.addZeroPage_0) .add
+  | .addZeroPageX => readOp model .zpx (·.addZeroPageX_0) .add
+  | .addAbsolute => readOp model .abs (·.addAbsolute_0) .add
+  | .addAbsoluteX => readOp model .absx (·.addAbsoluteX_0) .add
+  | .addAbsoluteY => readOp model .absy (·.addAbsoluteY_0) .add
+  | .addIdxXIndirect => readOp model .indx (·.addIdxXIndirect_0) .add
+  | .addIndirectIdxY => readOp model .indy (·.addIndirectIdxY_0) .add
+  | .addIndirect => readOp model .zpind (·.addIndirect_0) .add
   -- SBC
-  | .subImmediate => readOp model .imm ret_subImmediate_0 .sub
-  | .subZeroPage => readOp model .zp ret_subZeroPage_0 .sub
-  | .subZeroPageX => readOp model .zpx ret_subZeroPageX_0 .sub
-  | .subAbsolute => readOp model .abs ret_subAbsolute_0 .sub
-  | .subAbsoluteX => readOp model .absx ret_subAbsoluteX_0 .sub
-  | .subAbsoluteY => readOp model .absy ret_subAbsoluteY_0 .sub
-  | .subIdxXIndirect => readOp model .indx ret_subIdxXIndirect_0 .sub
-  | .subIndirectIdxY => readOp model .indy ret_subIndirectIdxY_0 .sub
-  | .subIndirect => readOp model .zpind ret_subIndirect_0 .sub
+  | .subImmediate => readOp model .imm (·.subImmediate_0) .sub
+  | .subZeroPage => readOp model .zp (·.subZeroPage_0) .sub
+  | .subZeroPageX => readOp model .zpx (·.subZeroPageX_0) .sub
+  | .subAbsolute => readOp model .abs (·.subAbsolute_0) .sub
+  | .subAbsoluteX => readOp model .absx (·.subAbsoluteX_0) .sub
+  | .subAbsoluteY => readOp model .absy (·.subAbsoluteY_0) .sub
+  | .subIdxXIndirect => readOp model .indx (·.subIdxXIndirect_0) .sub
+  | .subIndirectIdxY => readOp model .indy (·.subIndirectIdxY_0) .sub
+  | .subIndirect => readOp model .zpind (·.subIndirect_0) .sub
   -- EOR / ORA / AND  (delegate to logicalXxx(c, op))
-  | .eorImmediate => readOp model .imm ret_logicalImmediate_0 (.logical .Xor)
-  | .eorZeroPage => readOp model .zp ret_logicalZeroPage_0 (.logical .Xor)
-  | .eorZeroPageX => readOp model .zpx ret_logicalZeroPageX_0 (.logical .Xor)
-  | .eorAbsolute => readOp model .abs ret_logicalAbsolute_0 (.logical .Xor)
-  | .eorAbsoluteX => readOp model .absx ret_logicalAbsoluteX_0 (.logical .Xor)
-  | .eorAbsoluteY => readOp model .absy ret_logicalAbsoluteY_0 (.logical .Xor)
-  | .eorIdxIndirect => readOp model .indx ret_logicalIdxXIndirect_0 (.logical .Xor)
-  | .eorIndirectIdxY => readOp model .indy ret_logicalIndirectIdxY_0 (.logical .Xor)
-  | .eorIndirect => readOp model .zpind ret_logicalIndirect_0 (.logical .Xor)
-  | .oraImmediate => readOp model .imm ret_logicalImmediate_0 (.logical .Or)
-  | .oraZeroPage => readOp model .zp ret_logicalZeroPage_0 (.logical .Or)
-  | .oraZeroPageX => readOp model .zpx ret_logicalZeroPageX_0 (.logical .Or)
-  | .oraAbsolute => readOp model .abs ret_logicalAbsolute_0 (.logical .Or)
-  | .oraAbsoluteX => readOp model .absx ret_logicalAbsoluteX_0 (.logical .Or)
-  | .oraAbsoluteY => readOp model .absy ret_logicalAbsoluteY_0 (.logical .Or)
-  | .oraIdxIndirect => readOp model .indx ret_logicalIdxXIndirect_0 (.logical .Or)
-  | .oraIndirectIdxY => readOp model .indy ret_logicalIndirectIdxY_0 (.logical .Or)
-  | .oraIndirect => readOp model .zpind ret_logicalIndirect_0 (.logical .Or)
-  | .andImmediate => readOp model .imm ret_logicalImmediate_0 (.logical .And)
-  | .andZeroPage => readOp model .zp ret_logicalZeroPage_0 (.logical .And)
-  | .andZeroPageX => readOp model .zpx ret_logicalZeroPageX_0 (.logical .And)
-  | .andAbsolute => readOp model .abs ret_logicalAbsolute_0 (.logical .And)
-  | .andAbsoluteX => readOp model .absx ret_logicalAbsoluteX_0 (.logical .And)
-  | .andAbsoluteY => readOp model .absy ret_logicalAbsoluteY_0 (.logical .And)
-  | .andIdxIndirect => readOp model .indx ret_logicalIdxXIndirect_0 (.logical .And)
-  | .andIndirectIdxY => readOp model .indy ret_logicalIndirectIdxY_0 (.logical .And)
-  | .andIndirect => readOp model .zpind ret_logicalIndirect_0 (.logical .And)
+  | .eorImmediate => readOp model .imm (·.logicalImmediate_0) (.logical .Xor)
+  | .eorZeroPage => readOp model .zp (·.logicalZeroPage_0) (.logical .Xor)
+  | .eorZeroPageX => readOp model .zpx (·.logicalZeroPageX_0) (.logical .Xor)
+  | .eorAbsolute => readOp model .abs (·.logicalAbsolute_0) (.logical .Xor)
+  | .eorAbsoluteX => readOp model .absx (·.logicalAbsoluteX_0) (.logical .Xor)
+  | .eorAbsoluteY => readOp model .absy (·.logicalAbsoluteY_0) (.logical .Xor)
+  | .eorIdxIndirect => readOp model .indx (·.logicalIdxXIndirect_0) (.logical .Xor)
+  | .eorIndirectIdxY => readOp model .indy (·.logicalIndirectIdxY_0) (.logical .Xor)
+  | .eorIndirect => readOp model .zpind (·.logicalIndirect_0) (.logical .Xor)
+  | .oraImmediate => readOp model .imm (·.logicalImmediate_0) (.logical .Or)
+  | .oraZeroPage => readOp model .zp (·.logicalZeroPage_0) (.logical .Or)
+  | .oraZeroPageX => readOp model .zpx (·.logicalZeroPageX_0) (.logical .Or)
+  | .oraAbsolute => readOp model .abs (·.logicalAbsolute_0) (.logical .Or)
+  | .oraAbsoluteX => readOp model .absx (·.logicalAbsoluteX_0) (.logical .Or)
+  | .oraAbsoluteY => readOp model .absy (·.logicalAbsoluteY_0) (.logical .Or)
+  | .oraIdxIndirect => readOp model .indx (·.logicalIdxXIndirect_0) (.logical .Or)
+  | .oraIndirectIdxY => readOp model .indy (·.logicalIndirectIdxY_0) (.logical .Or)
+  | .oraIndirect => readOp model .zpind (·.logicalIndirect_0) (.logical .Or)
+  | .andImmediate => readOp model .imm (·.logicalImmediate_0) (.logical .And)
+  | .andZeroPage => readOp model .zp (·.logicalZeroPage_0) (.logical .And)
+  | .andZeroPageX => readOp model .zpx (·.logicalZeroPageX_0) (.logical .And)
+  | .andAbsolute => readOp model .abs (·.logicalAbsolute_0) (.logical .And)
+  | .andAbsoluteX => readOp model .absx (·.logicalAbsoluteX_0) (.logical .And)
+  | .andAbsoluteY => readOp model .absy (·.logicalAbsoluteY_0) (.logical .And)
+  | .andIdxIndirect => readOp model .indx (·.logicalIdxXIndirect_0) (.logical .And)
+  | .andIndirectIdxY => readOp model .indy (·.logicalIndirectIdxY_0) (.logical .And)
+  | .andIndirect => readOp model .zpind (·.logicalIndirect_0) (.logical .And)
   -- BIT
-  | .bitImmediate => readOp model .imm ret_bitImmediate_0 .bit
-  | .bitZeroPage => readOp model .zp ret_bitZeroPage_0 .bit
-  | .bitZeroPageX => readOp model .zpx ret_bitZeroPageX_0 .bit
-  | .bitAbsolute => readOp model .abs ret_bitAbsolute_0 .bit
-  | .bitAbsoluteX => readOp model .absx ret_bitAbsoluteX_0 .bit
+  | .bitImmediate => readOp model .imm (·.bitImmediate_0) .bit
+  | .bitZeroPage => readOp model .zp (·.bitZeroPage_0) .bit
+  | .bitZeroPageX => readOp model .zpx (·.bitZeroPageX_0) .bit
+  | .bitAbsolute => readOp model .abs (·.bitAbsolute_0) .bit
+  | .bitAbsoluteX => readOp model .absx (·.bitAbsoluteX_0) .bit
   -- STA / STX / STY / STZ
-  | .staZeroPage => storeOp .zp ret_staZeroPage_0 .a
-  | .staZeroPageX => storeOp .zpx ret_staZeroPageX_0 .a
-  | .staAbsolute => storeOp .abs ret_staAbsolute_0 .a
-  | .staAbsoluteX => storeOp .absx ret_staAbsoluteX_0 .a
-  | .staAbsoluteY => storeOp .absy ret_staAbsoluteY_0 .a
-  | .staXIndirect => storeOp .indx ret_staXIndirect_0 .a
-  | .staIndirectY => storeOp .indy ret_staIndirectY_0 .a
-  | .staIndirect => storeOp .zpind ret_staIndirect_0 .a
-  | .stxZeroPage => storeOp .zp ret_stxZeroPage_0 .x
-  | .stxZeroPageY => storeOp .zpy ret_stxZeroPageY_0 .x
-  | .stxAbsolute => storeOp .abs ret_stxAbsolute_0 .x
-  | .styZeroPage => storeOp .zp ret_styZeroPage_0 .y
-  | .styZeroPageX => storeOp .zpx ret_styZeroPageX_0 .y
-  | .styAbsolute => storeOp .abs ret_styAbsolute_0 .y
-  | .stzZeroPage => storeOp .zp ret_stzZeroPage_0 .zero
-  | .stzZeroPageX => storeOp .zpx ret_stzZeroPageX_0 .zero
-  | .stzAbsolute => storeOp .abs ret_stzAbsolute_0 .zero
-  | .stzAbsoluteX => storeOp .absx ret_stzAbsoluteX_0 .zero
+  | .staZeroPage => storeOp .zp (·.staZeroPage_0) .a
+  | .staZeroPageX => storeOp .zpx (·.staZeroPageX_0) .a
+  | .staAbsolute => storeOp .abs (·.staAbsolute_0) .a
+  | .staAbsoluteX => storeOp .absx (·.staAbsoluteX_0) .a
+  | .staAbsoluteY => storeOp .absy (·.staAbsoluteY_0) .a
+  | .staXIndirect => storeOp .indx (·.staXIndirect_0) .a
+  | .staIndirectY => storeOp .indy (·.staIndirectY_0) .a
+  | .staIndirect => storeOp .zpind (·.staIndirect_0) .a
+  | .stxZeroPage => storeOp .zp (·.stxZeroPage_0) .x
+  | .stxZeroPageY => storeOp .zpy (·.stxZeroPageY_0) .x
+  | .stxAbsolute => storeOp .abs (·.stxAbsolute_0) .x
+  | .styZeroPage => storeOp .zp (·.styZeroPage_0) .y
+  | .styZeroPageX => storeOp .zpx (·.styZeroPageX_0) .y
+  | .styAbsolute => storeOp .abs (·.styAbsolute_0) .y
+  | .stzZeroPage => storeOp .zp (·.stzZeroPage_0) .zero
+  | .stzZeroPageX => storeOp .zpx (·.stzZeroPageX_0) .zero
+  | .stzAbsolute => storeOp .abs (·.stzAbsolute_0) .zero
+  | .stzAbsoluteX => storeOp .absx (·.stzAbsoluteX_0) .zero
   -- read-modify-write (delegate to c.modXxx(op))
-  | .asl => modImplied ret_modImplied_0 .Asl
-  | .aslZeroPage => modOp .zp ret_modZeroPage_0 false .Asl
-  | .aslZeroPageX => modOp .zpx ret_modZeroPageX_0 false .Asl
-  | .aslAbsolute => modOp .abs ret_modAbsolute_0 false .Asl
-  | .aslAbsoluteX => modOp .absx ret_modAbsoluteX_0 false .Asl
-  | .aslAbsoluteX65C02 => modOp .absx ret_modAbsoluteX65C02_0 true .Asl
-  | .lsr => modImplied ret_modImplied_0 .Lsr
-  | .lsrZeroPage => modOp .zp ret_modZeroPage_0 false .Lsr
-  | .lsrZeroPageX => modOp .zpx ret_modZeroPageX_0 false .Lsr
-  | .lsrAbsolute => modOp .abs ret_modAbsolute_0 false .Lsr
-  | .lsrAbsoluteX => modOp .absx ret_modAbsoluteX_0 false .Lsr
-  | .lsrAbsoluteX65C02 => modOp .absx ret_modAbsoluteX65C02_0 true .Lsr
-  | .rol => modImplied ret_modImplied_0 .Rol
-  | .rolZeroPage => modOp .zp ret_modZeroPage_0 false .Rol
-  | .rolZeroPageX => modOp .zpx ret_modZeroPageX_0 false .Rol
-  | .rolAbsolute => modOp .abs ret_modAbsolute_0 false .Rol
-  | .rolAbsoluteX => modOp .absx ret_modAbsoluteX_0 false .Rol
-  | .rolAbsoluteX65C02 => modOp .absx ret_modAbsoluteX65C02_0 true .Rol
-  | .ror => modImplied ret_modImplied_0 .Ror
-  | .rorZeroPage => modOp .zp ret_modZeroPage_0 false .Ror
-  | .rorZeroPageX => modOp .zpx ret_modZeroPageX_0 false .Ror
-  | .rorAbsolute => modOp .abs ret_modAbsolute_0 false .Ror
-  | .rorAbsoluteX => modOp .absx ret_modAbsoluteX_0 false .Ror
-  | .rorAbsoluteX65C02 => modOp .absx ret_modAbsoluteX65C02_0 true .Ror
-  | .inc65C02 => modImplied ret_modImplied_0 .Inc
-  | .incZeroPage => modOp .zp ret_modZeroPage_0 false .Inc
-  | .incZeroPageX => modOp .zpx ret_modZeroPageX_0 false .Inc
-  | .incAbsolute => modOp .abs ret_modAbsolute_0 false .Inc
-  | .incAbsoluteX => modOp .absx ret_modAbsoluteX_0 false .Inc
-  | .dec65C02 => modImplied ret_modImplied_0 .Dec
-  | .decZeroPage => modOp .zp ret_modZeroPage_0 false .Dec
-  | .decZeroPageX => modOp .zpx ret_modZeroPageX_0 false .Dec
-  | .decAbsolute => modOp .abs ret_modAbsolute_0 false .Dec
-  | .decAbsoluteX => modOp .absx ret_modAbsoluteX_0 false .Dec
+  | .asl => modImplied (·.modImplied_0) .Asl
+  | .aslZeroPage => modOp .zp (·.modZeroPage_0) false .Asl
+  | .aslZeroPageX => modOp .zpx (·.modZeroPageX_0) false .Asl
+  | .aslAbsolute => modOp .abs (·.modAbsolute_0) false .Asl
+  | .aslAbsoluteX => modOp .absx (·.modAbsoluteX_0) false .Asl
+  | .aslAbsoluteX65C02 => modOp .absx (·.modAbsoluteX65C02_0) true .Asl
+  | .lsr => modImplied (·.modImplied_0) .Lsr
+  | .lsrZeroPage => modOp .zp (·.modZeroPage_0) false .Lsr
+  | .lsrZeroPageX => modOp .zpx (·.modZeroPageX_0) false .Lsr
+  | .lsrAbsolute => modOp .abs (·.modAbsolute_0) false .Lsr
+  | .lsrAbsoluteX => modOp .absx (·.modAbsoluteX_0) false .Lsr
+  | .lsrAbsoluteX65C02 => modOp .absx (·.modAbsoluteX65C02_0) true .Lsr
+  | .rol => modImplied (·.modImplied_0) .Rol
+  | .rolZeroPage => modOp .zp (·.modZeroPage_0) false .Rol
+  | .rolZeroPageX => modOp .zpx (·.modZeroPageX_0) false .Rol
+  | .rolAbsolute => modOp .abs (·.modAbsolute_0) false .Rol
+  | .rolAbsoluteX => modOp .absx (·.modAbsoluteX_0) false .Rol
+  | .rolAbsoluteX65C02 => modOp .absx (·.modAbsoluteX65C02_0) true .Rol
+  | .ror => modImplied (·.modImplied_0) .Ror
+  | .rorZeroPage => modOp .zp (·.modZeroPage_0) false .Ror
+  | .rorZeroPageX => modOp .zpx (·.modZeroPageX_0) false .Ror
+  | .rorAbsolute => modOp .abs (·.modAbsolute_0) false .Ror
+  | .rorAbsoluteX => modOp .absx (·.modAbsoluteX_0) false .Ror
+  | .rorAbsoluteX65C02 => modOp .absx (·.modAbsoluteX65C02_0) true .Ror
+  | .inc65C02 => modImplied (·.modImplied_0) .Inc
+  | .incZeroPage => modOp .zp (·.modZeroPage_0) false .Inc
+  | .incZeroPageX => modOp .zpx (·.modZeroPageX_0) false .Inc
+  | .incAbsolute => modOp .abs (·.modAbsolute_0) false .Inc
+  | .incAbsoluteX => modOp .absx (·.modAbsoluteX_0) false .Inc
+  | .dec65C02 => modImplied (·.modImplied_0) .Dec
+  | .decZeroPage => modOp .zp (·.modZeroPage_0) false .Dec
+  | .decZeroPageX => modOp .zpx (·.modZeroPageX_0) false .Dec
+  | .decAbsolute => modOp .abs (·.modAbsolute_0) false .Dec
+  | .decAbsoluteX => modOp .absx (·.modAbsoluteX_0) false .Dec
   -- TRB / TSB / RMB / SMB
-  | .trbZeroPage => testBitsOp .zp ret_trbZeroPage_0 false
-  | .trbAbsolute => testBitsOp .abs ret_trbAbsolute_0 false
-  | .tsbZeroPage => testBitsOp .zp ret_tsbZeroPage_0 true
-  | .tsbAbsolute => testBitsOp .abs ret_tsbAbsolute_0 true
-  | .rmb0 => rmbBase ret_rmbBase_0 0x01
-  | .rmb1 => rmbBase ret_rmbBase_0 0x02
-  | .rmb2 => rmbBase ret_rmbBase_0 0x04
-  | .rmb3 => rmbBase ret_rmbBase_0 0x08
-  | .rmb4 => rmbBase ret_rmbBase_0 0x10
-  | .rmb5 => rmbBase ret_rmbBase_0 0x20
-  | .rmb6 => rmbBase ret_rmbBase_0 0x40
-  | .rmb7 => rmbBase ret_rmbBase_0 0x80
-  | .smb0 => smbBase ret_smbBase_0 0x01
-  | .smb1 => smbBase ret_smbBase_0 0x02
-  | .smb2 => smbBase ret_smbBase_0 0x04
-  | .smb3 => smbBase ret_smbBase_0 0x08
-  | .smb4 => smbBase ret_smbBase_0 0x10
-  | .smb5 => smbBase ret_smbBase_0 0x20
-  | .smb6 => smbBase ret_smbBase_0 0x40
-  | .smb7 => smbBase ret_smbBase_0 0x80
+  | .trbZeroPage => testBitsOp .zp (·.trbZeroPage_0) false
+  | .trbAbsolute => testBitsOp .abs (·.trbAbsolute_0) false
+  | .tsbZeroPage => testBitsOp .zp (·.tsbZeroPage_0) true
+  | .tsbAbsolute => testBitsOp .abs (·.tsbAbsolute_0) true
+  | .rmb0 => rmbBase (·.rmbBase_0) 0x01
+  | .rmb1 => rmbBase (·.rmbBase_0) 0x02
+  | .rmb2 => rmbBase (·.rmbBase_0) 0x04
+  | .rmb3 => rmbBase (·.rmbBase_0) 0x08
+  | .rmb4 => rmbBase (·.rmbBase_0) 0x10
+  | .rmb5 => rmbBase (·.rmbBase_0) 0x20
+  | .rmb6 => rmbBase (·.rmbBase_0) 0x40
+  | .rmb7 => rmbBase (·.rmbBase_0) 0x80
+  | .smb0 => smbBase (·.smbBase_0) 0x01
+  | .smb1 => smbBase (·.smbBase_0) 0x02
+  | .smb2 => smbBase (·.smbBase_0) 0x04
+  | .smb3 => smbBase (·.smbBase_0) 0x08
+  | .smb4 => smbBase (·.smbBase_0) 0x10
+  | .smb5 => smbBase (·.smbBase_0) 0x20
+  | .smb6 => smbBase (·.smbBase_0) 0x40
+  | .smb7 => smbBase (·.smbBase_0) 0x80
   -- branches
   | .bpl => branchOnFlagClear flagN
   | .bmi => branchOnFlagSet flagN
@@ -547,47 +548,53 @@ def handler (model : CpuModel) : H → M StepOut
   | .jmpIndirect65C02 => jmpIndirect65C02
   | .jmpIndexXIndirect => jmpIndexXIndirect
   -- stack
-  | .pha => pushOp ret_pha_0 (·.a)
-  | .phx => pushOp ret_phx_0 (·.x)
-  | .phy => pushOp ret_phy_0 (·.y)
-  | .php => pushOp ret_php_0 (·.p)
-  | .pla => pullOp ret_pla_0 (fun v r => { r with a := v })
-  | .plx => pullOp ret_plx_0 (fun v r => { r with x := v })
-  | .ply => pullOp ret_ply_0 (fun v r => { r with y := v })
+  | .pha => pushOp (·.pha_0) (·.a)
+  | .phx => pushOp (·.phx_0) (·.x)
+  | .phy => pushOp (·.phy_0) (·.y)
+  | .php => pushOp (·.php_0) (·.p)
+  | .pla => pullOp (·.pla_0) (fun v r => { r with a := v })
+  | .plx => pullOp (·.plx_0) (fun v r => { r with x := v })
+  | .ply => pullOp (·.ply_0) (fun v r => { r with y := v })
   | .plp => plp
   -- flags
-  | .clc => regOp ret_clc_0 (fun r => { r with p := r.p &&& ~~~flagC })
-  | .cli => regOp ret_cli_0 (fun r => { r with p := r.p &&& ~~~flagI })
-  | .clv => regOp ret_clv_0 (fun r => { r with p := r.p &&& ~~~flagV })
-  | .cld => regOp ret_cld_0 (fun r => { r with p := r.p &&& ~~~flagD })
-  | .sec => regOp ret_sec_0 (fun r => { r with p := r.p ||| flagC })
-  | .sei => regOp ret_sei_0 (fun r => { r with p := r.p ||| flagI })
-  | .sed => regOp ret_sed_0 (fun r => { r with p := r.p ||| flagD })
+  | .clc => regOp (·.clc_0) (fun r => { r with p := r.p &&& ~~~flagC })
+  | .cli => regOp (·.cli_0) (fun r => { r with p := r.p &&& ~~~flagI })
+  | .clv => regOp (·.clv_0) (fun r => { r with p := r.p &&& ~~~flagV })
+  | .cld => regOp (·.cld_0) (fun r => { r with p := r.p &&& ~~~flagD })
+  | .sec => regOp (·.sec_0) (fun r => { r with p := r.p ||| flagC })
+  | .sei => regOp (·.sei_0) (fun r => { r with p := r.p ||| flagI })
+  | .sed => regOp (·.sed_0) (fun r => { r with p := r.p ||| flagD })
   -- transfers
-  | .tax => regOp ret_tax_0 (fun r => { r with p := nzFlags r.p r.a, x := r.a })
-  | .txa => regOp ret_txa_0 (fun r => { r with p := nzFlags r.p r.x, a := r.x })
-  | .tay => regOp ret_tay_0 (fun r => { r with p := nzFlags r.p r.a, y := r.a })
-  | .tya => regOp ret_tya_0 (fun r => { r with p := nzFlags r.p r.y, a := r.y })
-  | .txs => regOp ret_txs_0 (fun r => { r with sp := r.x })
-  | .tsx => regOp ret_tsx_0 (fun r => { r with p := nzFlags r.p r.sp, x := r.sp })
+  | .tax => regOp (·.tax_0) (fun r => { r with p := nzFlags r.p r.a, x := r.a })
+  | .txa => regOp (·.txa_0) (fun r => { r with p := nzFlags r.p r.x, a := r.x })
+  | .tay => regOp (·.tay_0) (fun r => { r with p := nzFlags r.p r.a, y := r.a })
+  | .tya => regOp (·.tya_0) (fun r => { r with p := nzFlags r.p r.y, a := r.y })
+  | .txs => regOp (·.txs_0) (fun r => { r with sp := r.x })
+  | .tsx => regOp (·.tsx_0) (fun r => { r with p := nzFlags r.p r.sp, x := r.sp })
   -- register increment / decrement
-  | .dey => regOp ret_dey_0 (fun r => let y := r.y - 1; { r with y := y, p := nzFlags r.p y })
-  | .iny => regOp ret_iny_0 (fun r => let y := r.y + 1; { r with y := y, p := nzFlags r.p y })
-  | .dex => regOp ret_dex_0 (fun r => let x := r.x - 1; { r with x := x, p := nzFlags r.p x })
-  | .inx => regOp ret_inx_0 (fun r => let x := r.x + 1; { r with x := x, p := nzFlags r.p x })
+  | .dey => regOp (·.dey_0) (fun r => let y := r.y - 1; { r with y := y, p := nzFlags r.p y })
+  | .iny => regOp (·.iny_0) (fun r => let y := r.y + 1; { r with y := y, p := nzFlags r.p y })
+  | .dex => regOp (·.dex_0) (fun r => let x := r.x - 1; { r with x := x, p := nzFlags r.p x })
+  | .inx => regOp (·.inx_0) (fun r => let x := r.x + 1; { r with x := x, p := nzFlags r.p x })
 
-def opTable : CpuModel → Byte → Option H
-  | .m6502 => opTable6502
-  | .m65C02 => opTable65C02
+/-- the handler for a given record of cycle literals -/
+def handler (k : CycleConsts) (model : CpuModel) (h : H) : M StepOut := do
+  let o ← handlerS model h
+  return o.eval k
 
-/-- `executeInstruction`: fetch, table lookup (panic before `c.PC++` when absent), dispatch -/
-def step (model : CpuModel) : M StepOut := do
+/-- `executeInstruction`: fetch, table lookup (panic before `c.PC++` when absent), dispatch.
+    `tbl` is the opcode table (`c.opCodes`). -/
+def stepS (tbl : Byte → Option H) (model : CpuModel) : M StepOutS := do
   let pc := (← get).pc
   let opCode ← ld pc
-  match opTable model opCode with
+  match tbl opCode with
   | none => failM (.illegal opCode pc)
   | some h => do
     incPC
-    handler model h
+    handlerS model h
+
+def step (tbl : Byte → Option H) (k : CycleConsts) (model : CpuModel) : M StepOut := do
+  let o ← stepS tbl model
+  return o.eval k
 
 end Verif.Impl
